@@ -892,6 +892,51 @@ rule("D1.for_self_checksums_while",
      "let mut __i_c : usize = 0 ; while __i_c < self . checksums . len ( ) { let c = & self . checksums [ __i_c ] ; __i_c += 1 ;",
      "for c in &self.checksums {..} with `continue` in the body -> indexed while loop (index advanced first)")
 
+rule("D6.readdir_next_q",
+     "self . readdir . as_mut ( ) . expect ( \"Bad\u2423pkgdb\u2423read\" ) . next ( ) ?",
+     "( match shim_readdir_next ( & mut self . readdir ) { Some ( __v ) => __v , None => return None } )",
+     "Option<ReadDir>::as_mut().expect(..).next()? : world iterator; the expect() stays as the shim's `requires` (is Some); `?` on Option written out")
+
+rule("D6.dirent_file_name",
+     "dir . file_name ( )",
+     "shim_dirent_file_name ( & dir )",
+     "DirEntry::file_name()")
+
+rule("D6.dirent_path",
+     "dir . path ( )",
+     "shim_dirent_path ( & dir )",
+     "DirEntry::path()")
+
+rule("D6.io_invalid_data_lit",
+     "io :: Error :: new ( io :: ErrorKind :: InvalidData , $l:str , )",
+     "shim_io_invalid_data_msg ( $l )",
+     "io::Error::new(InvalidData, \"message\")")
+
+rule("D6.path_is_file",
+     "pkgdir . is_file ( )",
+     "shim_path_is_file ( pkgdir )",
+     "Path::is_file() (file system)")
+
+rule("D6.path_join_exists",
+     "pkgdir . join ( file ) . exists ( )",
+     "shim_path_join_exists ( pkgdir , file )",
+     "Path::join(name).exists() (file system)")
+
+rule("D9.self_item_pkgdb",
+     "Self :: Item",
+     "io :: Result < Package >",
+     "associated type of `impl Iterator for PkgDB` written out (the method is verified as an inherent fn)")
+
+rule("D6.path_join_str",
+     "$recv . join ( mentry . to_filename ( ) )",
+     "shim_path_join_str ( $recv , mentry . to_filename ( ) )",
+     "Path::join(&str)")
+
+rule("D6.fs_read_to_string",
+     "fs :: read_to_string ( fname )",
+     "shim_read_to_string ( fname )",
+     "fs::read_to_string (file system)")
+
 rule("D6.take_digits",
      "$recv . chars ( ) . take_while ( char :: is_ascii_digit ) . collect ( )",
      "shim_take_ascii_digits ( $recv )",
